@@ -165,13 +165,15 @@ def run_property(pid, tier, seed, jobs):
     # loaded machine cannot turn a proof into an alarm) before concluding anything
     retry = []
     for r in results:
-        if r["status"] in ("ok", "undecided") and any(
-                o["failed"] and o["failed"][0]["status"] == "unknown" and pid in o["props"] for o in r["obligations"].values()):
-            retry.append(r["key"])
+        if r["status"] not in ("ok", "undecided"):
+            continue
+        fails = [(n, o["failed"][0]["status"]) for n, o in r["obligations"].items() if o["failed"] and pid in o["props"]]
+        if fails and all(stt == "unknown" for _n, stt in fails) and any(n in baseline for n, _s in fails):
+            retry.append(r["key"])        # nothing decided against the function, and a proved clause is now open
     if retry:
-        again = run_tasks([(k, timeout_ms * 4) for k in retry], max(1, min(4, jobs)), wall_limit=3000)
+        again = run_tasks([(k, timeout_ms * 3) for k in retry], max(1, min(4, jobs)), wall_limit=900, retries=1)
         by_key = {r["key"]: r for r in again}
-        results = [by_key.get(r["key"], r) if by_key.get(r["key"], r)["status"] != "error" else r for r in results]
+        results = [by_key[r["key"]] if r["key"] in by_key and by_key[r["key"]]["status"] != "error" else r for r in results]
     regressed = []
     n_obl = n_ok = n_vcs = 0
     violations, undecided, errors, knowns = [], [], [], []
@@ -255,7 +257,7 @@ def run_property(pid, tier, seed, jobs):
             rep = {"reproduced": None, "note": "replay driver error: " + traceback.format_exc()[-800:]}
         json.dump({"property": pid, "obligation": name, "kind": o["kind"], "function": key,
                    "detail": "this obligation was discharged on the unchanged tree (baseline/obligations.json) and can no "
-                             "longer be discharged on the current source, also with four times the solver budget: the "
+                             "longer be discharged on the current source, also with three times the solver budget: the "
                              "clause is no longer provable. " + (f["detail"] or ""),
                    "goal": f["goal"], "solver": "z3 " + _z3v() + " / cvc5", "solver_output": "unknown (no model)", "model": None,
                    "replay": rep}, open(path, "w"), indent=1)
@@ -370,8 +372,10 @@ def main():
     a = ap.parse_args()
     if a.mkbaseline:
         from specs.manifest_table import CHECKS
-        out = {}
-        for pid in sorted(CHECKS):
+        bp = os.path.join(ROOT, "baseline", "obligations.json")
+        only = [a.pid] if a.pid else None            # `--mkbaseline C11` refreshes one property, keeps the others
+        out = json.load(open(bp)) if (only and os.path.exists(bp)) else {}
+        for pid in (only or sorted(CHECKS)):
             rc = run_property(pid, "quick", 0, a.jobs)
             if rc != 0:
                 print("baseline not written: %s exits %d" % (pid, rc))
